@@ -817,12 +817,14 @@ Proof.
   induction cs as [|c cs IH]; intros off o H; [destruct H|].
   cbn [offs_of] in *. destruct (offs_of (off + length (enc_chunk c)) cs) as [|x l] eqn:E.
   - destruct H as [<-|[]]. cbn [last]. lia.
-  - cbn [last]. fold (last (x :: l) 0%nat). destruct H as [<-|H].
+  - change (last (off :: x :: l) 0%nat) with (last (x :: l) 0%nat). destruct H as [<-|H].
     + assert (A : In (last (x :: l) 0%nat) (x :: l)).
       { clear. revert x. induction l as [|y l IHl]; intros x; [now left|].
         right. apply IHl. }
-      rewrite <- E in A. apply offs_of_ge in A. lia.
-    + rewrite <- E in H |- *. now apply IH.
+      assert (A' : In (last (x :: l) 0%nat) (offs_of (off + length (enc_chunk c)) cs))
+        by (rewrite E; exact A).
+      apply offs_of_ge in A'. lia.
+    + rewrite <- E. apply IH. rewrite E. exact H.
 Qed.
 
 Lemma offs_of_le_data : forall cs off o, In o (offs_of off cs) -> (o <= off + length (data_of cs))%nat.
@@ -854,13 +856,13 @@ Qed.
 (** hash buckets stay bytes *)
 Lemma set_nth_length i x l : length (set_nth i x l) = length l.
 Proof.
-  revert i; induction l as [|y l IH]; intros i; [reflexivity|].
+  revert i; induction l as [|y l IH]; intros i; [destruct i; reflexivity|].
   destruct i; cbn [set_nth length]; auto.
 Qed.
 
 Lemma set_nth_wf i x l : x < 256 -> Forall (fun b => b < 256) l -> Forall (fun b => b < 256) (set_nth i x l).
 Proof.
-  intros Hx H. revert i. induction H as [|y l Hy Hl IH]; intros i; [constructor|].
+  intros Hx H. revert i. induction H as [|y l Hy Hl IH]; intros i; [destruct i; constructor|].
   destruct i; cbn [set_nth]; constructor; auto.
 Qed.
 
@@ -944,6 +946,27 @@ Proof. induction n; cbn [repeat]; constructor; auto. unfold MARKER_FREE. lia. Qe
 Lemma trunc_small n : n < 2 ^ 32 -> trunc 32 n = n.
 Proof. intros H. unfold trunc. now apply N.mod_small. Qed.
 
+Lemma enc_full_len1 h : (1 <= length (encode_full h))%nat.
+Proof. unfold encode_full. rewrite app_length. cbn [write_u8 le_bytes length]. lia. Qed.
+
+Lemma enc_tail_len1 h e : (1 <= length (enc_tail h e))%nat.
+Proof. unfold enc_tail, encode_truncated. rewrite app_length. cbn [write_u8 le_bytes length]. lia. Qed.
+
+Lemma chunk_le_data c : (length c <= length (enc_chunk c))%nat.
+Proof.
+  destruct c as [|h t]; [cbn; lia|]. cbn [enc_chunk length]. rewrite app_length.
+  pose proof (enc_full_len1 h).
+  assert (length t <= length (flat_map (enc_tail h) t))%nat; [|lia].
+  induction t as [|e t IHt]; [cbn; lia|]. cbn [flat_map length]. rewrite app_length.
+  pose proof (enc_tail_len1 h e). lia.
+Qed.
+
+Lemma concat_le_data cs : (length (concat cs) <= length (data_of cs))%nat.
+Proof.
+  induction cs as [|c cs IH]; [cbn; lia|]. cbn [concat]. unfold data_of in *. cbn [flat_map].
+  rewrite !app_length. pose proof (chunk_le_data c). lia.
+Qed.
+
 Theorem encode_block_facts hash ri nb items :
   0 < ri -> ri < 256 -> items <> [] ->
   N.of_nat (length (encode_block hash ri nb items)) < 2 ^ 32 ->
@@ -965,7 +988,7 @@ Proof.
   unfold st0, enc_init in *. cbn [e_w e_cnt e_rc e_bin e_hash app length] in *.
   clear F1 F2 F3 F4 F5 st0 Hc0.
   set (D := data_of cs) in *.
-  set (HH := hash_chunks hash ri (repeat MARKER_FREE (N.to_nat nb)) 0 cs) in *.
+  set (HH := hash_chunks hash (repeat MARKER_FREE (N.to_nat nb)) 0 cs) in *.
   set (offsT := map (fun o => trunc 32 (N.of_nat o)) (offs_of 0 cs)) in *.
   unfold enc_finish in *. cbn [e_w e_cnt e_bin e_hash] in *.
   unfold bin_write in *.
@@ -990,7 +1013,9 @@ Proof.
   assert (Est : stepN = N.of_nat step) by (unfold stepN, step; destruct (_ <? _); reflexivity).
   assert (EBI : BIb = bin_bytes step (offs_of 0 cs)).
   { unfold BIb, stepN, step, bin_bytes. rewrite EoT.
-    destruct (_ <? 65536); cbn [N.eqb Pos.eqb]; rewrite flat_map_map; reflexivity. }
+    destruct (last (map N.of_nat (offs_of 0 cs)) 0 <? 65536);
+      [change (2 =? 2) with true|change (4 =? 2) with false]; cbv iota;
+      rewrite flat_map_map; reflexivity. }
   assert (HHwf : Forall (fun b => b < 256) HH) by (apply hash_chunks_wf; apply repeat_wf).
   exists step, (if wh then HH else []).
   eexists. exists (if wh then N.of_nat (length HH) else 0).
@@ -1001,8 +1026,7 @@ Proof.
     - rewrite (flat_map_write_u8 _ HHwf). rewrite <- !app_assoc. reflexivity.
     - rewrite <- !app_assoc. reflexivity. }
   split; [apply EB|]. split; [|split; [|split]].
-  - rewrite <- EB.
-    assert (Eho : (if wh then trunc 32 (N.of_nat (length (w1 ++ BIb))) else 0)
+  - assert (Eho : (if wh then trunc 32 (N.of_nat (length (w1 ++ BIb))) else 0)
                   = (if wh then N.of_nat (length D + 1 + length BIb) else 0)).
     { destruct wh; [|reflexivity]. rewrite app_length, L1. apply trunc_small. exact LD. }
     rewrite Eho.
@@ -1021,16 +1045,7 @@ Proof.
     + destruct wh eqn:Ewh; [|lia]. unfold w3 in L3, Hlen. rewrite !app_length in Hlen.
       rewrite (flat_map_write_u8 _ HHwf) in Hlen. lia.
     + destruct wh; lia.
-    + assert (length (concat cs) <= length D)%nat; [|lia]. clear. unfold D.
-      induction cs as [|c cs IH]; [cbn; lia|]. cbn [concat]. unfold data_of in *. cbn [flat_map].
-      rewrite !app_length.
-      assert (length c <= length (enc_chunk c))%nat; [|lia].
-      destruct c as [|h t]; [cbn; lia|]. cbn [enc_chunk length]. rewrite app_length.
-      assert (1 <= length (encode_full h))%nat by (unfold encode_full; rewrite app_length; cbn; lia).
-      assert (length t <= length (flat_map (enc_tail h) t))%nat; [|lia].
-      induction t as [|e t IHt]; [cbn; lia|]. cbn [flat_map length]. rewrite app_length.
-      assert (1 <= length (enc_tail h e))%nat by (unfold enc_tail, encode_truncated; rewrite app_length; cbn; lia).
-      lia.
+    + rewrite <- Hcat. pose proof (concat_le_data cs). fold D in H. lia.
   - unfold step. destruct (_ <? _); auto.
   - apply Forall_forall. intros o Ho. unfold step.
     destruct (last offsT 0 <? 65536) eqn:E.
@@ -1042,4 +1057,91 @@ Proof.
     apply N.ltb_lt in W1. apply N.leb_le in W2. unfold MAX_POINTERS_FOR_HASH_INDEX in W2.
     repeat split; try lia.
     destruct HH; [cbn in W1; lia|discriminate].
+Qed.
+
+(** * G. THEOREM 1: the encoder emits bytes *)
+
+Lemma flat_map_wf {A} (f : A -> list N) l : (forall x, bytes_wf (f x)) -> bytes_wf (flat_map f l).
+Proof.
+  intros H. induction l as [|x l IH]; [constructor|]. cbn [flat_map]. apply bytes_wf_app; auto.
+Qed.
+
+Lemma enc_write_wf hash ri st e : entry_wf e -> bytes_wf (e_w st) -> bytes_wf (e_w (enc_write hash ri st e)).
+Proof.
+  intros W H. unfold enc_write. cbn [e_w]. apply bytes_wf_app; [exact H|].
+  destruct (is_multiple_of _ _); [now apply encode_full_wf|now apply encode_truncated_wf].
+Qed.
+
+Lemma enc_fold_wf hash ri : forall items st, Forall entry_wf items -> bytes_wf (e_w st) ->
+  bytes_wf (e_w (fold_left (enc_write hash ri) items st)).
+Proof.
+  induction items as [|e items IH]; intros st W H; [exact H|].
+  inversion W; subst. cbn [fold_left]. apply IH; [assumption|]. now apply enc_write_wf.
+Qed.
+
+Theorem encode_bytes_wf hash ri nb items :
+  Forall entry_wf items -> bytes_wf (encode_block hash ri nb items).
+Proof.
+  intros W. unfold encode_block. destruct (ri =? 0); [constructor|].
+  destruct items as [|first items']; [constructor|].
+  set (st := fold_left _ _ _).
+  assert (Hw : bytes_wf (e_w st)) by (apply enc_fold_wf; [exact W|constructor]).
+  unfold enc_finish, bin_write.
+  repeat match goal with
+  | |- bytes_wf (_ ++ _) => apply bytes_wf_app
+  | |- bytes_wf (le_bytes _ _) => apply le_bytes_wf
+  | |- bytes_wf (write_u8 _) => apply le_bytes_wf
+  | |- bytes_wf (write_u16_le _) => apply le_bytes_wf
+  | |- bytes_wf (write_u32_le _) => apply le_bytes_wf
+  | |- bytes_wf (flat_map _ _) => apply flat_map_wf; intros
+  | |- bytes_wf (e_w st) => exact Hw
+  | |- bytes_wf (if ?c then _ else _) => destruct c
+  end.
+Qed.
+
+(** * H. THEOREM 2: forward iteration returns exactly the items *)
+
+Definition items_wf (items : list entry) : Prop := Forall item_wf items.
+
+(** "data blocks never approach 4 GiB" (trailer.rs:84, encoder.rs:133): every length and
+    offset is cast to u32 *)
+Definition block_small (B : list N) : Prop := N.of_nat (length B) < 2 ^ 32.
+
+Lemma cs_of_concat ri items : 0 < ri -> concat (cs_of ri items) = items.
+Proof. intros H. apply chunks_of_concat; lia. Qed.
+
+Lemma decoder_new_facts hash ri nb cs B :
+  block_facts hash ri nb cs B ->
+  exists d st, decoder_new B = Some (d, st) /\ d_ri d = N.to_nat ri /\
+    lo_off st = 0%nat /\ lo_rem st = 0%nat /\ hi_base st = None /\
+    exists rest, B = data_of cs ++ TRAILER_START_MARKER :: rest.
+Proof.
+  intros (step & HI & TR & hlen & hoff & F1 & F2 & _). cbv zeta in *.
+  unfold decoder_new. rewrite F2. eexists _, _. split; [reflexivity|].
+  cbn [d_ri lo_off lo_rem hi_base t_ri]. repeat split. eexists. exact F1.
+Qed.
+
+Theorem datablock_roundtrip hash ri nb items :
+  items <> [] -> items_wf items -> 1 <= ri <= 255 ->
+  block_small (encode_block hash ri nb items) ->
+  decode_all (encode_block hash ri nb items) = Some items.
+Proof.
+  intros Hne W Hri Hs.
+  pose proof (encode_block_facts hash ri nb items ltac:(lia) ltac:(lia) Hne Hs) as F.
+  set (B := encode_block hash ri nb items) in *.
+  destruct (decoder_new_facts _ _ _ _ _ F) as (d & st & Dn & Dri & O & R & Hb & rest & EB).
+  unfold decode_all. rewrite Dn.
+  rewrite <- (cs_of_concat ri items ltac:(lia)) at 1.
+  apply dec_collect_stream.
+  - apply stream_chunks with (rest := rest).
+    + lia.
+    + rewrite Dri. apply chunks_of_chunked; lia.
+    + apply chunks_of_wf. exact W.
+    + rewrite O. cbn [skipn]. exact EB.
+    + exact R.
+    + exact Hb.
+  - rewrite cs_of_concat by lia.
+    pose proof (concat_le_data (cs_of ri items)) as L. rewrite cs_of_concat in L by lia.
+    assert (length (data_of (cs_of ri items)) <= length B)%nat; [|lia].
+    rewrite EB at 2. rewrite app_length. lia.
 Qed.
